@@ -810,6 +810,41 @@ func (p *c19) numbers(rec *core.Recorder, r *core.Rand) {
 		if bigInt && r.Bool() {
 			ctxVal = num // int64
 		}
+		if !bigInt && num >= -100 && num <= 100 && r.Bool() {
+			// every integer kind is a number
+			ctxVal = []interface{}{int8(num), int16(num), int32(num), int64(num)}[r.Intn(4)]
+			if num >= 0 && r.Bool() {
+				ctxVal = []interface{}{uint8(num), uint16(num), uint32(num), uint(num), uint64(num)}[r.Intn(5)]
+			}
+			rec.Count("typed-small-integers", 1)
+		}
+	}
+	if r.P(1, 40) {
+		// floats beyond the int range: rounding them gives the same whole number back
+		num, den = int64(r.Range(1, 9)), 1
+		v19 := new(big.Rat).SetFrac(new(big.Int).Mul(big.NewInt(num), new(big.Int).Exp(big.NewInt(10), big.NewInt(19), nil)), big.NewInt(1))
+		if r.Bool() {
+			v19.Neg(v19)
+		}
+		f19, _ := v19.Float64()
+		out, err, res := c19R("{{ v|round }}|{{ v|abs }}", map[string]interface{}{"v": f19})
+		rec.Eval("numbers", "huge:"+v19.RatString(), true)
+		cs := map[string]any{"value": v19.RatString()}
+		if res.Panicked {
+			rec.Violate("panic", "panic@"+res.Site, "engine panicked: "+res.PanicVal, cs, res.Stack)
+			return
+		}
+		parts := strings.Split(out, "|")
+		ok := err == nil && len(parts) == 2
+		if ok {
+			rv, ok1 := new(big.Rat).SetString(parts[0])
+			av, ok2 := new(big.Rat).SetString(parts[1])
+			ok = ok1 && ok2 && rv.Cmp(v19) == 0 && av.Cmp(new(big.Rat).Abs(v19)) == 0
+		}
+		if !ok {
+			p.violate(rec, "numbers", "huge:"+v19.RatString(), fmt.Sprintf("round / abs of %s gave %q (err=%v)", v19.RatString(), out, err), cs)
+		}
+		return
 	}
 	prec := r.Range(0, 4)
 	method := []string{"common", "ceil", "floor"}[r.Intn(3)]
